@@ -40,6 +40,15 @@ PROPS = {
         technique='contract-based deductive verification (Verus contracts on extracted WAL reader/appender/replay over a file model + inductive log lemmas)',
         design_ref='DESIGN.md §4 C17',
     ),
+    'C18': dict(
+        title='Growing one structure never corrupts another',
+        kani=['c18_pager', 'c18_idmap'],
+        verus=['c18_pager'],
+        pairs={},
+        native={'apply_create_node_multi_label': ['c18_node_table_spill'], 'write_i2e_record': ['c18_node_table_spill'],
+                'make_room_for_next_record': ['c18_node_table_spill']},
+        level_text='TBD', level_note='TBD', technique='TBD', design_ref='DESIGN.md §4 C18',
+    ),
     'C20': dict(
         title='ORDER BY sorts and SKIP/LIMIT slice it',
         kani=['c20_order'],
@@ -58,7 +67,6 @@ PROPS = {
 
 # claimed in DESIGN.md but whose check is not built yet: listed under not_applicable until it is
 PENDING = {
-    'C18': 'check under construction (claimed in DESIGN.md §4; will move to checks when its units are committed)',
     'C26': 'check under construction (claimed in DESIGN.md §4; will move to checks when its units are committed)',
     'C28': 'check under construction (claimed in DESIGN.md §4; will move to checks when its units are committed)',
 }
